@@ -9,7 +9,10 @@ Judge(L) ==
       zt == [t EXCEPT !.FNS = "ZM-VFNS"]
       q2 == Q2Of(zt, L.i, L.cls)
       nf == NfActive(t, q2)
-  IN IF ~(Valid(zt) /\ ClassValid(zt, L.i, L.cls)) THEN "obligation_outside_spec_domain"
+  IN IF t.FNS = "ZM-VFNS" /\ RewriteFNS(zt).ok /\ ~Monotone(Thresholds(zt))
+       THEN (IF L.outcome \in {"Reject_ValueError", "Reject_NotImplementedError"} THEN "ok"
+             ELSE IF L.outcome = "OK" THEN "unordered_matching_scales_accepted" ELSE "outcome_" \o L.outcome)
+     ELSE IF ~(Valid(zt) /\ ClassValid(zt, L.i, L.cls)) THEN "obligation_outside_spec_domain"
      ELSE IF L.outcome # "OK" THEN "outcome_" \o L.outcome
      ELSE IF L.nf_rows # nf THEN "active_quark_rows_differ"
      ELSE IF L.beta0 # Beta0(nf) THEN "beta0_of_scale_variation_differs"
